@@ -228,7 +228,11 @@ class SSH_Socket(ReadBuf, WriteBuf):
         if self.__sock is None:
             return -1, 'not connected'
         try:
-            self.__sock.send(data)
+            # send() may accept only a part of the data; continue with the remainder until everything was handed over.
+            sent = self.__sock.send(data)
+            while isinstance(sent, int) and 0 < sent < len(data):
+                data = data[sent:]
+                sent = self.__sock.send(data)
             return 0, None
         except socket.error as e:
             return -1, str(e.args[-1])
